@@ -326,4 +326,20 @@ impl Metrics {
     pub(crate) fn mark_gc_remembered(&self, count: usize) {
         self.0.remembered_gcs.update(|c| c + count);
     }
+
+    /// Verification hook: read-only copy of every counter.
+    #[cfg(gc_arena_verif)]
+    pub fn verif_counters(&self) -> crate::verif::Counters {
+        crate::verif::Counters {
+            total_gcs: self.0.total_gcs.get(),
+            wakeup_amount: self.0.wakeup_amount.get(),
+            artificial_debt: self.0.artificial_debt.get(),
+            allocated_gcs: self.0.allocated_gcs.get(),
+            dropped_gcs: self.0.dropped_gcs.get(),
+            freed_gcs: self.0.freed_gcs.get(),
+            marked_gcs: self.0.marked_gcs.get(),
+            traced_gcs: self.0.traced_gcs.get(),
+            remembered_gcs: self.0.remembered_gcs.get(),
+        }
+    }
 }
